@@ -883,5 +883,142 @@ theorem msubOK_runCmd (fin0 : Nat) (sc : Script) (kd : Async.Kinds) (cfg : Cfg) 
     | dispatch _ => trivial
     | may _ _ => trivial
 
+/-! ### top level -/
+
+/-- a top-level awaited trigger on model `m` of a queued='model' machine whose queues are all empty -/
+theorem top_trigger (fin0 : Nat) (sc : Script) (kd : Async.Kinds) (cfg : Cfg) (qmax n : Nat)
+    (rest : List Nat) (hfin : cfg.finalize = fin0 :: rest) (hnot : fin0 ∉ rest)
+    (m ev : Nat) (s : St) (hidle : s.queue = []) :
+    ∀ s', (Async.apiTrigger (Async.runCmd sc kd cfg 2 qmax n) sc kd cfg 2 qmax m ev s).state? = some s' →
+      s'.queue = [] ∧ ∃ seg, s'.log = s.log ++ seg ∧ run fin0 {} seg = some {} := by
+  intro s' hs'
+  let s1 : St := ({ s with nextTag := s.nextTag + 1 }).emit (.api 0 s.nextTag m ev)
+  have hs1q : s1.queue = [] := hidle
+  have refuse_exc : ∀ e, s' = s1.emit (.raised s.nextTag e) →
+      s'.queue = [] ∧ ∃ seg, s'.log = s.log ++ seg ∧ run fin0 {} seg = some {} := by
+    intro e h; subst h
+    exact ⟨hidle, [.api 0 s.nextTag m ev, .raised s.nextTag e], by simp [St.emit, s1],
+      adv_refused_exc fin0 {} _ _ _ _ rfl⟩
+  have refuse : s' = s1.emit (.ret s.nextTag false) →
+      s'.queue = [] ∧ ∃ seg, s'.log = s.log ++ seg ∧ run fin0 {} seg = some {} := by
+    intro h; subst h
+    exact ⟨hidle, [.api 0 s.nextTag m ev, .ret s.nextTag false], by simp [St.emit, s1],
+      adv_refused fin0 {} _ _ _ rfl⟩
+  unfold Async.apiTrigger at hs'
+  change (match Async.triggerByName _ sc kd cfg 2 qmax m ev s.nextTag s1 with
+        | .ok b s' => (.ok b (s'.emit (.ret s.nextTag b)) : R Bool)
+        | .err e s' => .err e (s'.emit (.raised s.nextTag e))
+        | .oof => .oof).state? = some s' at hs'
+  unfold Async.triggerByName at hs'
+  by_cases hmod : (alookup m s1.mstate).isNone = true
+  · simp only [hmod, if_true, Res.state?, Option.some.injEq] at hs'
+    exact refuse_exc _ hs'.symm
+  · simp only [hmod] at hs'
+    cases hev : cfg.event? ev with
+    | none =>
+      simp only [hev, Bool.false_eq_true, if_false] at hs'
+      cases hst : cfg.state? (s1.stateOf m) with
+      | none => simp only [hst, Res.state?, Option.some.injEq] at hs'; exact refuse_exc _ hs'.symm
+      | some _ =>
+        simp only [hst] at hs'
+        by_cases hig : ignoreInvalid cfg (s1.stateOf m) = true
+        · simp only [hig, if_true, Res.state?, Option.some.injEq] at hs'; exact refuse hs'.symm
+        · simp only [hig, Bool.false_eq_true, if_false, Res.state?, Option.some.injEq] at hs'
+          exact refuse_exc _ hs'.symm
+    | some ts =>
+      -- the caller drains the queue of `m`
+      let s2 : St := { s1 with queue := [(m, ev, s.nextTag)] }
+      have hmp : Async.machineProcess (Async.runCmd sc kd cfg 2 qmax n) sc kd cfg 2 qmax m ev s.nextTag s1 =
+          (Async.drain (Async.runCmd sc kd cfg 2 qmax n) sc kd cfg 2 m qmax s2).bind fun _ s' => .ok true s' := by
+        have h20 : ((2 : Nat) = 0) = False := by simp
+        simp [Async.machineProcess, h20, hs1q, qOf_two, s2]
+      simp only [hev, Bool.false_eq_true, if_false, hmp] at hs'
+      let ms1 : MS := { stack := [{ owner := s.nextTag, q := [(s.nextTag, m)], fin := false }], fresh := true }
+      have a1 : run fin0 {} [.api 0 s.nextTag m ev] = some ms1 := adv_open fin0 {} _ m ev rfl rfl
+      have hpre : DrainPreM s.nextTag [] m ms1 s2 := by
+        refine ⟨rfl, _, _, rfl, rfl, ⟨by simp [s2], ?_⟩, ⟨trivial, by simp, by simp, ?_⟩, Or.inl ⟨?_, rfl, ?_⟩⟩
+        · intro e he; simp [s2] at he; subst he; exact Nat.lt_succ_self _
+        · intro e he; simp [s2] at he; subst he; exact Or.inl rfl
+        · simp [s2, qv, key]
+        · simp [s2, qv]
+      have hd := adrainM_post fin0 sc kd cfg (Async.runCmd sc kd cfg 2 qmax n)
+        (msubOK_runCmd fin0 sc kd cfg qmax rest hfin hnot n) rest hfin hnot s.nextTag [] m qmax ms1 s2 hpre
+      cases hr : Async.drain (Async.runCmd sc kd cfg 2 qmax n) sc kd cfg 2 m qmax s2 with
+      | oof => simp [hr, Res.bind, Res.state?] at hs'
+      | ok u s3 =>
+        rw [hr] at hd
+        obtain ⟨ms3, seg, l3, a3, hp3, σ3, stk, hs3, ho3, hf3, hl3, _, _, hLD⟩ := hd
+        simp only [hr, Res.bind, Res.state?, Option.some.injEq] at hs'
+        subst hs'
+        have hstk : stk = [] := hLD.ext.nil_left
+        subst hstk
+        have hq3 : s3.queue = [] := by
+          cases hq : s3.queue with
+          | nil => rfl
+          | cons e r => have := hLD.cover e (by rw [hq]; exact List.mem_cons_self ..); simp at this
+        refine ⟨hq3, [.api 0 s.nextTag m ev] ++ seg ++ [.ret s.nextTag true], by simp [St.emit, l3, s2, s1], ?_⟩
+        exact run_trans (run_trans a1 a3) (ho3 ▸ adv_close fin0 ms3 σ3 [] hp3 hs3 hl3 hf3)
+      | err e s3 =>
+        rw [hr] at hd
+        obtain ⟨ms3, seg, l3, a3, hp3, σ3, stk, hs3, ho3, _, _, hLD⟩ := hd
+        simp only [hr, Res.bind, Res.state?, Option.some.injEq] at hs'
+        subst hs'
+        have hstk : stk = [] := hLD.ext.nil_left
+        subst hstk
+        have hq3 : s3.queue = [] := by
+          cases hq : s3.queue with
+          | nil => rfl
+          | cons e r => have := hLD.cover e (by rw [hq]; exact List.mem_cons_self ..); simp at this
+        refine ⟨hq3, [.api 0 s.nextTag m ev] ++ seg ++ [.raised s.nextTag e], by simp [St.emit, l3, s2, s1], ?_⟩
+        exact run_trans (run_trans a1 a3) (ho3 ▸ adv_close_exc fin0 ms3 σ3 [] e hp3 hs3)
+
+/-- every history of awaited triggers: the whole trace is accepted, and all queues are empty again at the end -/
+theorem permodel_history (fin0 : Nat) (sc : Script) (kd : Async.Kinds) (cfg : Cfg) (qmax fuel : Nat)
+    (rest : List Nat) (hfin : cfg.finalize = fin0 :: rest) (hnot : fin0 ∉ rest) :
+    ∀ (h : List Cmd) (s : St), s.queue = [] →
+    ∀ s', Async.runHistory sc kd cfg 2 qmax fuel h s = some s' →
+      s'.queue = [] ∧ ∃ tr, s'.log = s.log ++ tr ∧ run fin0 {} tr = some {} := by
+  intro h
+  induction h with
+  | nil =>
+    intro s hq0 s' hs'
+    simp only [Async.runHistory, Option.some.injEq] at hs'
+    subst hs'
+    exact ⟨hq0, [], by simp, rfl⟩
+  | cons c cs ih =>
+    intro s hq0 s' hs'
+    cases fuel with
+    | zero => simp [Async.runHistory, Async.runCmd] at hs'
+    | succ f =>
+      have step : ∀ s1, (Async.runCmd sc kd cfg 2 qmax (f + 1) c s).state? = some s1 →
+          s1.queue = [] ∧ ∃ seg, s1.log = s.log ++ seg ∧ run fin0 {} seg = some {} := by
+        intro s1 h1
+        cases c with
+        | trigger m ev =>
+          have h1' : (Async.apiTrigger (Async.runCmd sc kd cfg 2 qmax f) sc kd cfg 2 qmax m ev s).state? = some s1 := by
+            have : Async.runCmd sc kd cfg 2 qmax (f + 1) (.trigger m ev) s =
+              (Async.apiTrigger (Async.runCmd sc kd cfg 2 qmax f) sc kd cfg 2 qmax m ev s).map fun _ => () := rfl
+            rw [this] at h1
+            cases hr : Async.apiTrigger (Async.runCmd sc kd cfg 2 qmax f) sc kd cfg 2 qmax m ev s <;>
+              simp [hr, Res.map, Res.state?] at h1 ⊢ <;> exact h1
+          exact top_trigger fin0 sc kd cfg qmax f rest hfin hnot m ev s hq0 s1 h1'
+        | removeModel _ => simp [Async.runCmd, Res.state?] at h1
+        | addModel _ => simp [Async.runCmd, Res.state?] at h1
+        | dispatch _ => simp [Async.runCmd, Res.state?] at h1
+        | may _ _ => simp [Async.runCmd, Res.state?] at h1
+      simp only [Async.runHistory] at hs'
+      cases hr : Async.runCmd sc kd cfg 2 qmax (f + 1) c s with
+      | oof => simp [hr] at hs'
+      | ok u s1 =>
+        simp only [hr] at hs'
+        obtain ⟨q1, seg, l1, a1⟩ := step s1 (by simp [hr, Res.state?])
+        obtain ⟨q2, tr, l2, a2⟩ := ih s1 q1 s' hs'
+        exact ⟨q2, seg ++ tr, by rw [l2, l1, List.append_assoc], run_trans a1 a2⟩
+      | err e s1 =>
+        simp only [hr] at hs'
+        obtain ⟨q1, seg, l1, a1⟩ := step s1 (by simp [hr, Res.state?])
+        obtain ⟨q2, tr, l2, a2⟩ := ih s1 q1 s' hs'
+        exact ⟨q2, seg ++ tr, by rw [l2, l1, List.append_assoc], run_trans a1 a2⟩
+
 end M5
 end TM
